@@ -88,76 +88,71 @@ func ReqQueryAdd(req *bfe_basic.Request, params []string) {
 
 // ReqQueryRename renames query key from old name to new name.
 func ReqQueryRename(req *bfe_basic.Request, oldName string, newName string) {
-	var values []string
-	var ok bool
-
-	// add prefix "&" to simplify process
-	rawQuery := "&" + req.HttpRequest.URL.RawQuery
-
 	// parse the query
 	queries := queryParse(req)
 
 	// renanme query key from old name to new name
-	if values, ok = queries[oldName]; !ok {
-		// not find
-		return
+	if values, ok := queries[oldName]; ok {
+		queries.Del(oldName)
+		queries[newName] = values
 	}
 
-	queries.Del(oldName)
-	queries[newName] = values
+	// rename keys in the raw query; elements are matched by their decoded key
+	elems := strings.Split(req.HttpRequest.URL.RawQuery, "&")
+	for i, elem := range elems {
+		rawKey, rest := elem, ""
+		if j := strings.Index(elem, "="); j >= 0 {
+			rawKey, rest = elem[:j], elem[j:]
+		}
+		if key, err := url.QueryUnescape(rawKey); err == nil && rawKey != "" && key == oldName {
+			elems[i] = newName + rest
+		}
+	}
+	req.HttpRequest.URL.RawQuery = strings.Join(elems, "&")
+}
 
-	// rename keys
-	srcKey := "&" + oldName + "="
-	dstKey := "&" + newName + "="
-	rawQuery = strings.Replace(rawQuery, srcKey, dstKey, -1)
-
-	// remove prefix "&"
-	req.HttpRequest.URL.RawQuery = rawQuery[1:]
+// rawQueryFilter keeps the '&'-separated elements of rawQuery whose decoded key
+// satisfies keep. Elements are matched by their decoded key, so a key is found in
+// every encoding ("a", "%61", "a+b" for "a b") and also when it has no "=".
+func rawQueryFilter(rawQuery string, keep func(key string) bool) string {
+	elems := strings.Split(rawQuery, "&")
+	kept := make([]string, 0, len(elems))
+	for _, elem := range elems {
+		if elem == "" {
+			continue
+		}
+		rawKey := elem
+		if i := strings.Index(elem, "="); i >= 0 {
+			rawKey = elem[:i]
+		}
+		key, err := url.QueryUnescape(rawKey)
+		if err != nil {
+			key = rawKey
+		}
+		if keep(key) {
+			kept = append(kept, elem)
+		}
+	}
+	return strings.Join(kept, "&")
 }
 
 // ReqQueryDel deletes some keys from query
 func ReqQueryDel(req *bfe_basic.Request, keys []string) {
-	// add "&" prefix and suffix to simplify process
-	rawQuery := "&" + req.HttpRequest.URL.RawQuery + "&"
-
 	// parse the query
 	queries := queryParse(req)
 
-	// delete some keys from queries
+	keysMap := make(map[string]bool)
 	for _, key := range keys {
+		keysMap[key] = true
 		queries.Del(key)
-
-		for {
-			// find key start &key=
-			start := strings.Index(rawQuery, "&"+key+"=")
-			if start == -1 {
-				break
-			}
-
-			// find value end
-			end := strings.Index(rawQuery[start+1:], "&")
-			if end == -1 {
-				break
-			}
-
-			// remove start:start+end part
-			rawQuery = rawQuery[:start] + rawQuery[start+end+1:]
-		}
 	}
 
-	// set rawQuery, remove "&" prefix and suffix
-	if len(rawQuery) == 1 {
-		req.HttpRequest.URL.RawQuery = ""
-	} else {
-		req.HttpRequest.URL.RawQuery = rawQuery[1 : len(rawQuery)-1]
-	}
+	req.HttpRequest.URL.RawQuery = rawQueryFilter(req.HttpRequest.URL.RawQuery,
+		func(key string) bool { return !keysMap[key] })
 }
 
 // ReqQueryDelAllExcept deletes all keys from query, except some keys
 func ReqQueryDelAllExcept(req *bfe_basic.Request, keys []string) {
-	// add "&" prefix and suffix to simplify process
-	rawQuery := "&" + req.HttpRequest.URL.RawQuery + "&"
-
 	// parse the query
 	queries := queryParse(req)
 
@@ -169,33 +164,11 @@ func ReqQueryDelAllExcept(req *bfe_basic.Request, keys []string) {
 
 	// delete some keys from queries, except keys in keysMap
 	for key := range queries {
-		if _, ok := keysMap[key]; ok {
-			continue
-		}
-
-		queries.Del(key)
-		for {
-			// find key start
-			start := strings.Index(rawQuery, "&"+key+"=")
-			if start == -1 {
-				break
-			}
-
-			// find value end
-			end := strings.Index(rawQuery[start+1:], "&")
-			if end == -1 {
-				break
-			}
-
-			// remove start:start+end part
-			rawQuery = rawQuery[:start] + rawQuery[start+end+1:]
+		if !keysMap[key] {
+			queries.Del(key)
 		}
 	}
 
-	// set rawQuery, remove "&" prefix and suffix
-	if len(rawQuery) == 1 {
-		req.HttpRequest.URL.RawQuery = ""
-	} else {
-		req.HttpRequest.URL.RawQuery = rawQuery[1 : len(rawQuery)-1]
-	}
+	req.HttpRequest.URL.RawQuery = rawQueryFilter(req.HttpRequest.URL.RawQuery,
+		func(key string) bool { return keysMap[key] })
 }
